@@ -708,4 +708,159 @@ PROPS["C20"] = dict(
                 script="harness/c20_apps.py")],
 )
 
+# ---- engine E4 (real MPI hosts): proposed by the E4 harness author, see
+# DESIGN.md 11.5 ----
+E4_ASSUME = [
+    "schedules: cross-host message arrival order and thread schedules are NOT "
+    "controlled (hosts are separate MPI processes); every mpirun session is "
+    "repeated r times (r=2 quick, r=3 thorough) and every cell says "
+    "'schedules: uncontrolled, r repetitions'",
+    "hosts are h separate processes of ONE machine (Open MPI 4.1.4, "
+    "shared-memory transport, --oversubscribe --bind-to none); no real "
+    "network",
+    "libraries are built from /repo's working tree with CMake+Ninja, "
+    "Release (-O3 -DNDEBUG, assertions off as shipped), "
+    "-DGALOIS_ENABLE_DIST=ON; header-only CuSP/Gluon code is compiled into "
+    "the harness with exactly the project's flags",
+    "1 Galois thread per host (2 on a handful of cases)",
+    "a session that makes no progress for 60 s (C19) / 120 s without a "
+    "heartbeat (C18) is killed, the case that was running is re-run alone; "
+    "only a crash/hang that reproduces alone is a violation, otherwise it is "
+    "listed as 'unconfirmed' in the part's JSON and does not affect the exit "
+    "code",
+]
+
+PROPS["C19"] = dict(
+    level="exploration",
+    engine_name="mpix: input x configuration enumeration over real MPI hosts",
+    rule="c19_partition.cpp + e4_driver.py: every case = one input graph x "
+         "one CuSP configuration x one host count, partitioned by the real "
+         "galois::cuspPartitionGraph<Policy,char,EdgeData> inside an "
+         "`mpirun -np h` session; a real GluonSubstrate is built on top (its "
+         "constructor produces the master lists). Every host's local edges "
+         "(global src, global dst, data), L2G/G2L, isOwned/getHostID of "
+         "every proxy, isLocal of every node, numOwned / numNodesWithEdges, "
+         "mirror lists (before and after the substrate's id conversion) and "
+         "master lists are gathered with plain MPI on a private communicator "
+         "and checked on rank 0 against the input edge list: union of local "
+         "edge multisets == input multiset incl. data; exactly one master "
+         "per node and every proxy agrees who it is; no edge endpoint "
+         "without a proxy; L2G/G2L mutually inverse, isLocal consistent; "
+         "masters are the local-id prefix [0,numOwned); "
+         "numOwned<=numNodesWithEdges<=size and no out-edge beyond it; each "
+         "mirror list == the host's mirrors mastered by that peer == the "
+         "peer's master list for this host, in the same order; for a "
+         "partition that says is_vertex_cut()==false, mirrors have no local "
+         "out-edges (not transposed) / in-edges (transposed). Inputs: EVERY "
+         "directed multigraph (self loops and parallel edges allowed, node "
+         "ids significant) with n<=3, m<=2 (73 graphs; thorough m<=3: 259) "
+         "written as version-1 .gr + transposed .gr by the driver's own "
+         "encoder, plus 10 structured graphs (path5, instar5, outstar5, "
+         "cycle4, twocomp5, clique4, isolated5, empty4, lastheavy6, fan8), 5 "
+         "graphs with fewer nodes than hosts, their symmetrised copies, and "
+         "one graph with a 1002-edge node (hybrid cuts' high-degree branch). "
+         "Configurations: exactly the calls of DistBench/Input.h -- oec, iec, "
+         "hovc, hivc, cvc, cvc-iec, ginger-o/i, fennel-o/i, sugar-o, each "
+         "for CSR and CSC output (8 policy classes), the symmetricGraph "
+         "shortcut, edge data void / uint32, read balancing "
+         "BALANCED_EDGES_OF_MASTERS / BALANCED_MASTERS / "
+         "BALANCED_MASTERS_AND_EDGES, asynchronous and synchronous master "
+         "assignment; hosts 1..4. quick: all 73 small graphs x all 11 "
+         "policies at h=2 (CSR), x 6 policies at h=3, CSC on every third "
+         "graph, the structured family with uint32 data at h=1..4 and the "
+         "option variants on it (2274 cases). thorough: the m<=3 family x "
+         "all policies at h=2,3 and the full option cross product on the "
+         "structured family at h=1..4. executions = partitions run and "
+         "checked; states = distinct (graph, configuration, hosts); "
+         "transitions = host partitions inspected; non-trivial = at least "
+         "one mirror proxy exists",
+    bound_note="bounded-exhaustive in graphs (n<=3, m<=2 / m<=3) x the "
+               "listed configurations x hosts 1..4; the option cross product "
+               "(read balancing, sync assignment, symmetric shortcut, uint32 "
+               "data) is complete only on the structured family; "
+               "cuspStateRounds fixed at 100 (1 on a few thorough cases); "
+               "masterBlockFile and the node/edge weights are not varied; "
+               "runs WITHOUT the idle-poll pacing shim (pure Galois timing); "
+               "thorough stops at its deadline with exhaustive:false for the "
+               "cells it did not finish",
+    assumptions=E4_ASSUME,
+    deadline=dict(quick=420, thorough=2400),
+    technique="bounded-exhaustive enumeration of input graphs x partitioning "
+              "configurations x host counts on the real CuSP code over real "
+              "MPI processes, structural oracle computed from the input",
+    level_text="every listed graph x policy x CSR/CSC x option x host count "
+               "is partitioned by the real code and the gathered partition "
+               "is compared with the input",
+    level_note="inputs x configurations are enumerated, message arrival "
+               "order is not (DESIGN.md 5, 9); level exploration",
+    design_ref="DESIGN.md 5, 6.1, 7/C19, 9",
+    parts=[dict(engine="py", harness="c19_partition",
+                script="harness/e4_driver.py", args=("--prop", "C19"))],
+)
+
+PROPS["C18"] = dict(
+    level="exploration",
+    engine_name="mpix: input x configuration enumeration over real MPI hosts",
+    rule="c18_gluon.cpp + e4_driver.py: every case = one graph partitioned "
+         "by the real CuSP code (as in C19) on h hosts; on it, for every "
+         "DataCommMode the substrate can be told to enforce through its "
+         "constructor (auto, bitsetData, offsetsData, gidsData, onlyData), "
+         "for reduction in {min, add, set} on a uint32 field "
+         "(GALOIS_SYNC_STRUCTURE_REDUCE_MIN/ADD/SET), for (write, read) "
+         "location in {src,dst,any}^2 (forced modes: all 9 pairs in "
+         "thorough, the pairs (any,any),(src,dst),(dst,src) in quick), "
+         "update bitset on / off (off only with auto), and for EVERY subset "
+         "of the proxies that are eligible for the write location (all 2^E "
+         "subsets when E<=capbits (5-8), else the family |S|<=2 or |S|>=E-1): "
+         "all proxies are initialised, proxy #i of the subset writes 1+i and "
+         "marks the bitset, GluonSubstrate::sync<write,read,Reduce,Bitset>() "
+         "runs, and the (pre, post) values of every proxy of every host are "
+         "gathered with plain MPI and compared on rank 0 with the reduction "
+         "computed from the gathered PRE-sync values; only proxies readable "
+         "at the read location are compared. Eligibility is computed from "
+         "the local edges the hosts really hold (source = has a local "
+         "out-edge, destination = has a local in-edge, the master always). "
+         "min: every readable proxy == min(master, written mirrors); add: "
+         "master + sum(written mirrors) with unwritten mirrors at the "
+         "identity; set: the master's value if no eligible mirror was "
+         "written, else one of the values written at eligible mirrors "
+         "(arrival order decides) and all readable proxies agree. The "
+         "encodings chosen per message are counted at the call site of "
+         "get_data_mode() and reported (all of noData, bitsetData, "
+         "offsetsData, gidsData, onlyData occur). executions = cases; "
+         "transitions = syncs executed; states = distinct sync inputs; "
+         "non-trivial = a written proxy belongs to a node with >= 2 proxies",
+    bound_note="BSP sync only (async=false); uint32 fields; one sync from a "
+               "freshly initialised state per input (no sequences of syncs); "
+               "graphs: 9 chosen n<=3 graphs x 10 policy/output "
+               "configurations at 2 hosts and 7 at 3 hosts + 3-4 structured "
+               "graphs in quick, all 73 n<=3,m<=2 graphs + the structured family in "
+               "thorough; hosts 1..4; Ginger/Fennel/Sugar are partitioned "
+               "with cuspAsync=false here (C19 covers the asynchronous "
+               "assignment); all sessions run unpaced (pure Galois timing; "
+               "the idle-poll shim harness/e4_pace.h is off unless "
+               "VERIF_E4_PACE=1); "
+               "partitionAgnostic, GPU batch paths, vector bitsets, "
+               "GluonEdgeSubstrate and bare-MPI builds are not covered",
+    assumptions=E4_ASSUME + [
+        "a case whose partitioning stage crashes is not a C18 verdict (it "
+        "is C19's finding) and is listed under partition_stage_failures",
+    ],
+    deadline=dict(quick=600, thorough=2400),
+    technique="bounded-exhaustive enumeration of update patterns x sync "
+              "configurations x wire encodings x partitions on the real "
+              "Gluon substrate over real MPI processes, oracle = reduction "
+              "of the gathered pre-sync values",
+    level_text="every subset of writable proxies x reduction x location pair "
+               "x bitset x enforced encoding is synchronised by the real "
+               "code and every readable proxy is compared with the reduced "
+               "value",
+    level_note="inputs x configurations are enumerated, message arrival "
+               "order is not (DESIGN.md 5, 9); level exploration",
+    design_ref="DESIGN.md 5, 6.1, 7/C18, 9",
+    parts=[dict(engine="py", harness="c18_gluon",
+                script="harness/e4_driver.py", args=("--prop", "C18"))],
+)
+
+
 NOT_APPLICABLE = {}
